@@ -423,11 +423,17 @@ def judge_hs(uid, sc, cls, S, M, W=0):
 A1 = [b"OK 1234deadbeef", b"OK", b"OK ", b"OK  1234", "OK гуид".encode(), b"OK a\rb", b"OK x\ny", b"OK OK", b"OK\x201234 5678"]
 R1 = [b"OKAY", b"OKfoo", b"OK\t1234", b"OK\t", b"OK\n", b"OK\r", b"OK1234", b"OK_", b"OK,1", b"Ok 1", b"oK", b"OK\xc2\xa01",
       b"REJECTED EXTERNAL", b"REJECTED", b"ERROR", b'ERROR "x"', b"DATA 1234", b"ok 123", b" OK", b"", b"O", b"garbage \x01\x02",
-      b"AGREE_UNIX_FD", b"K", b"a\rb", b"a\nb", b"\r", b"\n", b"REJECTED OK", b"0K"]
+      b"AGREE_UNIX_FD", b"K", b"a\rb", b"a\nb", b"\r", b"\n", b"REJECTED OK", b"0K",
+      # valid UTF-8 with a multi-byte character across the end of the command word (byte 2) and right behind it
+      "\u20ac".encode(), "O\u00e9".encode(), "\u00e9\u00e9\u00e9".encode(), "OK\u00e9".encode(), "O\U0001F600".encode(),
+      "\u00e9K 1".encode(), "OK\u20ac 1".encode()]
 N1 = [b"\xff\xfe", b"OK \xff", b"OK \xc3", b"\xed\xa0\x80", b"OK \xf4\x90\x80\x80", b"\xc0\xaf"]
 A2 = [b"AGREE_UNIX_FD", b"AGREE_UNIX_FD extra", b"AGREE_UNIX_FD ", b"AGREE_UNIX_FD  x"]
 R2 = [b"AGREE_UNIX_FDX", b"AGREE_UNIX_FDS extra", b"AGREE_UNIX_FD\textra", b"AGREE_UNIX_FD_", b"AGREE", b"Agree_unix_fd",
-      b"ERROR", b"AGREE_UNIX_F", b"agree_unix_fd", b"OK 123", b"OK", b"", b"REJECTED", b" AGREE_UNIX_FD", b"a\rb"]
+      b"ERROR", b"AGREE_UNIX_F", b"agree_unix_fd", b"OK 123", b"OK", b"", b"REJECTED", b" AGREE_UNIX_FD", b"a\rb",
+      # a multi-byte character across byte 13 (the end of the word), and right behind it
+      "AGREE_UNIX_F\u00e9".encode(), "AGREE_UNIX_\u20ac".encode(), "AGREE_UNIX_FD\u00e9".encode(), "\u00e9GREE_UNIX_FD".encode(),
+      "AGREE_UNIX_F\U0001F600 x".encode()]
 N2 = [b"\xff\xfe", b"AGREE_UNIX_FD \xff"]
 OKL = b"OK 1234deadbeef" + CRLF
 AGL = b"AGREE_UNIX_FD" + CRLF
